@@ -7,7 +7,6 @@ import (
 	"encoding/json"
 	"fmt"
 	"os"
-	"sort"
 	"time"
 
 	"verifharness/internal/core"
@@ -26,21 +25,10 @@ func runDeps(inp input, scratch string) core.Result {
 		repo = "/repo"
 	}
 	spec := childSpec{Dir: repo, MaxStack: 16 << 20, Stride: d.Stride, Offset: d.Offset}
-	if len(d.Calls) > 0 {
-		seen := map[string]bool{}
-		for _, c := range d.Calls {
-			for _, p := range []string{c.Via, c.Pkg} {
-				if !seen[p] {
-					seen[p] = true
-					spec.Patterns = append(spec.Patterns, p)
-				}
-			}
-		}
-		sort.Strings(spec.Patterns)
-		spec.Calls = d.Calls
-	} else {
-		spec.Patterns = []string{gengoPattern}
-	}
+	// the roots are always gengo's own packages (types.Load dereferences Package.Module of its roots, which is nil
+	// for a standard-library package); everything named in explicit calls is in their dependency closure
+	spec.Patterns = []string{gengoPattern}
+	spec.Calls = d.Calls
 	sr := supervise(spec, scratch, 30*time.Second, 20*time.Minute)
 	obs := observed{LoadErr: sr.loadErr, Swept: len(sr.calls)}
 	if sr.loadErr != "" {
@@ -362,6 +350,16 @@ func fixedPrograms() []*Prog {
 		tableFn(p, "H", pkgA, 0, []Res{{Ty: tAny}, {Ty: tErr}}, []*Stmt{
 			ret(tcall("b.G", g, []Ty{tAny, tErr}, one(), nilExpr(), nilExpr())),
 		})
+		p.Calls = callsOf(p)
+		out = append(out, p)
+	}
+	{ // the importer only calls the function in parentheses: the registered node is of a kind Results does not handle
+		p := baseProg(true)
+		g := tableFn(p, "G", pkgB, 0, []Res{{Ty: tAny}, {Ty: tErr}}, []*Stmt{ret(lit(`"g"`, Ty{K: "untyped"}), val("&E{}", Ty{K: "errimpl", P: pkgB}))})
+		p.Funcs[g].ParenFromA = true
+		call := tcall("(b.G)", g, []Ty{tAny, tErr}, one(), nilExpr(), nilExpr())
+		call.Target = 0
+		tableFn(p, "H", pkgA, 0, []Res{{Ty: tAny}, {Ty: tErr}}, []*Stmt{ret(call)})
 		p.Calls = callsOf(p)
 		out = append(out, p)
 	}
